@@ -1,13 +1,13 @@
 package main
 
 import (
-	"strings"
+	"bytes"
 	"encoding/base64"
 	"encoding/json"
-	"bytes"
 	"fmt"
 	"math"
 	"math/big"
+	"strings"
 
 	"github.com/celestiaorg/go-square/v2/share"
 )
@@ -287,8 +287,8 @@ func streamNS(c *Ctx) {
 		}{
 			{arr(user), true},
 			{"\"" + base64.StdEncoding.EncodeToString(user) + "\"", true},
-			{arr(append([]byte{3}, make([]byte, 28)...)), false},                             // unsupported version
-			{arr(make([]byte, 28)), false},                                                    // wrong length
+			{arr(append([]byte{3}, make([]byte, 28)...)), false},                                                // unsupported version
+			{arr(make([]byte, 28)), false},                                                                      // wrong length
 			{"\"" + base64.StdEncoding.EncodeToString(append([]byte{0, 1}, make([]byte, 27)...)) + "\"", false}, // version 0 with a non-zero prefix byte
 		} {
 			c.oracle()
